@@ -253,7 +253,8 @@ pub open spec fn expr_type(e: Expression, table: LookupTable) -> Option<DataType
         Expression::IntLiteral(_) => Some(DataType::Int),
         Expression::Variable(v) => var_type(v, table),
         Expression::Binary(b) => Some(if arith(b.operator) { DataType::Int } else { DataType::Bool }),
-        Expression::Unary(u) => expr_type(*u.expr, table),
+        // the sign is an arithmetic operator: it yields an integer (no type if its operand has none)
+        Expression::Unary(u) => match expr_type(*u.expr, table) { Some(_) => Some(DataType::Int), None => None },
         Expression::Bracketed(b) => expr_type(*b.expr, table),
         Expression::Error(_) => None,
     }
@@ -275,6 +276,10 @@ pub open spec fn op_rule_ok(lt: Option<DataType>, rt: Option<DataType>, op: Oper
             }
     }
 }
+/// Operator rule for the sign: an operand that has a type other than int gets exactly one "arithmetic operation requires integer operands" on the signed expression; nothing otherwise
+pub open spec fn sign_rule_ok(t: Option<DataType>, range: Range<usize>, errs: Seq<SplError>) -> bool {
+    if t is Some && !(t->0 is Int) { errs.len() == 1 && errs[0] == SplError(range, sem(SemanticErrorMessage::ArithmeticOperatorNonInteger)) } else { errs.len() == 0 }
+}
 /// `n` extends `o` by exactly the diagnostics `errs`
 pub open spec fn appended(o: AstInfo, n: AstInfo, k: int) -> bool {
     n.range == o.range && n.errors@.len() == o.errors@.len() + k && n.errors@.subrange(0, o.errors@.len() as int) == o.errors@
@@ -289,7 +294,9 @@ pub open spec fn expr_post(o: Expression, n: Expression, table: LookupTable) -> 
         (Expression::IntLiteral(a), Expression::IntLiteral(b)) => a == b,
         (Expression::Variable(a), Expression::Variable(b)) => var_post(a, b, table),
         (Expression::Binary(a), Expression::Binary(b)) => bin_post(a, b, table),
-        (Expression::Unary(a), Expression::Unary(b)) => a.operator == b.operator && a.info == b.info && expr_post(*a.expr, *b.expr, table),
+        (Expression::Unary(a), Expression::Unary(b)) => a.operator == b.operator && expr_post(*a.expr, *b.expr, table)
+            && b.info.errors@.len() >= a.info.errors@.len() && appended(a.info, b.info, b.info.errors@.len() - a.info.errors@.len())
+            && sign_rule_ok(expr_type(*a.expr, table), a.info.range, tail(a.info, b.info)),
         (Expression::Bracketed(a), Expression::Bracketed(b)) => a.info == b.info && expr_post(*a.expr, *b.expr, table),
         (Expression::Error(a), Expression::Error(b)) => a == b,
         _ => false,
@@ -442,12 +449,27 @@ proof {
                     
 //@end
 //@extract spl_frontend/src/table/semantic.rs :: impl AnalyzeExpression for Expression
+//@ rewrite operand_ne_int map_inline
 //@ open
     open spec fn typ(&self, table: LookupTable) -> Option<DataType> { expr_type(*self, table) }
     open spec fn post(o: Self, n: Self, table: LookupTable) -> bool { expr_post(o, n, table) }
     open spec fn pre(&self) -> bool { expr_wf(*self) }
 //@ attr fn analyze
     #[verifier::exec_allows_no_decreases_clause]
+//@ before "let operand_type = u.expr.analyze(table);"
+let ghost ou = *u;
+                
+//@ before "(match operand_type { Some(_)"
+proof {
+                    assert(operand_type == expr_type(*ou.expr, *table));
+                    assert(u.info.errors@.subrange(0, ou.info.errors@.len() as int) =~= ou.info.errors@);
+                    if u.info.errors@.len() == ou.info.errors@.len() + 1 {
+                        assert(tail(ou.info, u.info) =~= seq![u.info.errors@[ou.info.errors@.len() as int]]);
+                    } else {
+                        assert(tail(ou.info, u.info) =~= Seq::<SplError>::empty());
+                    }
+                }
+                
 //@end
 //@extract spl_frontend/src/table/semantic.rs :: impl AnalyzeExpression for BinaryExpression
 //@ open
